@@ -54,3 +54,24 @@ pub fn lexparse_case(v: &Value) -> Value {
         Err(e) => json!({"panic": crate::compile::panic_msg(e)}),
     }
 }
+
+/// input {"text": source}; output {"ok":bool, "ast_dbg": Debug of ast::File, "diags":[messages], "panic":..}
+pub fn parse_ast_case(v: &Value) -> Value {
+    let text = v["text"].as_str().unwrap_or("").to_string();
+    let r = std::panic::catch_unwind(move || {
+        match compiler::pipeline::pipeline::parse_ast_file(std::path::Path::new("main.gom"), &text) {
+            Ok(ast) => json!({"ok": true, "ast_dbg": format!("{:?}", ast)}),
+            Err(e) => {
+                let ds: Vec<String> = e.diagnostics().iter().map(|d| d.message().to_string()).collect();
+                json!({"ok": false, "diags": ds})
+            }
+        }
+    });
+    match r {
+        Ok(v) => v,
+        Err(e) => {
+            let msg = if let Some(s) = e.downcast_ref::<String>() { s.clone() } else if let Some(s) = e.downcast_ref::<&str>() { s.to_string() } else { "panic".to_string() };
+            json!({"ok": false, "panic": msg})
+        }
+    }
+}
